@@ -100,16 +100,20 @@ RECURSIVE Names(_)
 Names(n) == IF n = 0 THEN {<<>>} ELSE LET Prev == Names(n - 1) IN Prev \cup {Append(nm, ch) : nm \in {t \in Prev : Len(t) = n - 1}, ch \in NameAlphabet}
 PluginCases(sh) == {[class |-> "plugin", kind |-> k, a |-> nm, b |-> pl, v |-> v] :
                       k \in {"PR", "PI"}, nm \in {x \in Names(MaxName) : Len(x) % NShards = sh - 1},
-                      pl \in {0, 1, 5}, v \in {"canon", "surplus", "pad"}}
-\* canon: the encoding; surplus: one more all-zero group (valid checksum); pad: a non-zero padding bit
+                      pl \in {0, 1, 5}, v \in {"canon", "surplus", "pad", "junkfront"}}
+\* canon: the encoding; surplus: one more all-zero group (valid checksum); pad: a non-zero padding bit;
+\* junkfront: the canonical encoding of the same name and payload under a human-readable part that has a path-like piece
+\* in FRONT of the fixed prefix ("/age1name", "PWN/AGE-PLUGIN-NAME-"): the prefix is there, but not at the start
 PluginInput(d) ==
   LET data == [i \in 1..d.b |-> Key[i]]
       g0 == ToGroups(data)
-      g == CASE d.v = "canon" -> g0
+      g == CASE d.v \in {"canon", "junkfront"} -> g0
              [] d.v = "surplus" -> g0 \o <<0>>
              [] d.v = "pad" -> IF d.b = 1 THEN [g0 EXCEPT ![2] = g0[2] + 1] ELSE g0 \o <<0, 0>>
-  IN IF d.kind = "PR" THEN EncodeGroups(PluginRcpPrefix \o ToLower(d.a), g)
-     ELSE EncodeGroups(PluginIdPrefix \o ToUpper(d.a) \o <<45>>, g)
+      jr == IF d.v = "junkfront" THEN <<47>> ELSE <<>>                 \* "/"
+      ji == IF d.v = "junkfront" THEN <<80, 87, 78, 47>> ELSE <<>>     \* "PWN/"
+  IN IF d.kind = "PR" THEN EncodeGroups(jr \o PluginRcpPrefix \o ToLower(d.a), g)
+     ELSE EncodeGroups(ji \o PluginIdPrefix \o ToUpper(d.a) \o <<45>>, g)
 
 InputOf(d) == CASE d.class = "subst" -> [(IF d.kind = "R" THEN RStr ELSE IStr) EXCEPT ![d.a] = d.b]
                 [] d.class = "insert" -> InsertInto((IF d.kind = "R" THEN RStr ELSE IStr), d.a, d.b)
